@@ -202,14 +202,15 @@ def check(fx, rep, tier):
     # R11.4: while items escape the borrow (R11.1), every additional receive of the stream overwrites what earlier items point to;
     # the stream must therefore read only what it is owed and never again after a failed receive (rule code of C06)
     if esc:
-        rep.rule('R11.4', 'while such an escape exists: the reply stream starts a receive only while replies are owed and never after a failed receive (R06.3 / R06.4 / R06.5 of C06)')
+        rep.rule('R11.4', 'while such an escape exists: the reply stream is built with the number of replies really owed, starts a receive only while replies are owed and never after a failed receive (R06.1 / R06.3 / R06.4 / R06.5 of C06)')
         import engine, c06
         sub = engine.Report('C06', 'quick')
         for cfg in ['full']:
             c06.check_stream(fx, sub, fx.crate('zlink_core', cfg), cfg)
+            c06.check_chain(fx, sub, fx.crate('zlink_core', cfg), cfg)     # R06.1: the owed count the stream is built with (one frame too many is one overwrite)
         n4 = 0
         for i in sub.insts:
-            if i.rule in ('R06.3', 'R06.4', 'R06.5'):
+            if i.rule in ('R06.1', 'R06.3', 'R06.4', 'R06.5'):
                 n4 += 1
                 (rep.ok if i.ok else rep.bad)('R11.4', i.rule + '|' + i.key, i.where,
                                               i.msg if i.ok else i.msg + ' - every extra receive rewrites the buffer that already yielded items still borrow from', i.detail)
